@@ -72,7 +72,7 @@ def workdir(name):
     return d
 
 
-def run_shards(binp, pid, tier, seed, watchdog_s=None, nshards=None, tag="main", extra_args=None):
+def run_shards(binp, pid, tier, seed, watchdog_s=None, nshards=None, tag="main", extra_args=None, hang_limit_s=None):
     """Run the sharded workers; returns (reports, problems)."""
     n = nshards or NSHARDS
     wd = workdir(f"{pid}-{tier}-{tag}")
@@ -85,6 +85,9 @@ def run_shards(binp, pid, tier, seed, watchdog_s=None, nshards=None, tag="main",
         cmd = [binp, "run", pid, "--tier", tier, "--seed", str(seed), "--shard", f"{i}/{n}", "--out", out, "--progress", prog]
         if extra_args:
             cmd += extra_args
+        if hang_limit_s:
+            # a case that runs this long ends the worker with status 97 (harness monitor::hang)
+            cmd += ["--hang-limit", str(hang_limit_s)]
         errf = open(os.path.join(wd, f"shard{i}.stderr"), "w")
         procs.append((i, subprocess.Popen(cmd, stdout=subprocess.DEVNULL, stderr=errf), out, prog, errf))
     reports = []
@@ -101,7 +104,7 @@ def run_shards(binp, pid, tier, seed, watchdog_s=None, nshards=None, tag="main",
             continue
         errf.close()
         if rc != 0 or not os.path.exists(out):
-            pr = {"why": f"shard {i} ({tag}) exited with status {rc}", "abort": rc < 0 or rc == 134}
+            pr = {"why": f"shard {i} ({tag}) exited with status {rc}", "abort": rc < 0 or rc == 134, "hang": rc == 97}
             if os.path.exists(prog):
                 try:
                     lines = open(prog).read().split("\n")
